@@ -212,6 +212,7 @@ class Contract:
     crosscheck: int = 12
     replayable: bool = True  # False: inputs are abstract models with no concrete realisation (no native replay)
     setup_in_crosscheck: bool = False
+    replay_hook: Callable[[dict], dict] | None = None  # custom native replay: model-evaluated inputs -> {"confirmed": bool, ...}
 
     # -- fluent helpers
     def arg(self, name: str, gen: Gen) -> "Contract":
